@@ -22,6 +22,8 @@ pub const TOKENS: &[&str] = &[
     "#b101", "#b102", "#o17", "#o18", "#xff", "#xFG", "#d10", "#d1.5", "#x-a", "#b", "#x", "#x-", "#e1", "#i1", "#b1.1", "#x1.8", "#d", "#d1e2", "#xFFFFFFFFFFFFFFFFFFFF", "#b+1", "#o-7",
     // keywords
     ":a", "a:", ":a:", "::", ":", "#:a", "#:", ":1", "1:", "#:1", "λ:", ":λ", "λ-1:", "$x:", "+:", "-:", ":+", "a-b:", ":a-b", "#:a-b", "a:b", "a::", "::a", "#:a:", "#::a", "A:", "%:", "?:", ":?",
+    // dot-initial names and postfix keywords (the list parsers scan dot-initial tokens themselves)
+    ".a:", "..:", ".:", "...:", ".a", ":.a", "#:.a", ".1:", "-.a:", "+.:", ".a.b:", "..a", ".λ:", ".λ",
     // nil / t
     "nil", "nil:", ":nil", "#:nil", "nilx", "xnil", "NIL", "Nil", "#nil", "#nilx", "nil.", "t", "tt", "T", "t:", ":t", "#t", "#f", "#t1", "#tx", "#true", "#false", "#f0", "t.", "-t", "ni", "nill",
     // chars
